@@ -1209,6 +1209,99 @@ func ruleFindSecrets(r *Run, rule string) {
 			bad = "findSecrets does not recurse into nested types"
 		}
 		r.Check(rule, "findSecrets:keeps-scanning-after-nested", fn.Decl.Pos(), bad == "", "%s", orOK(bad, "recursive result tested; only a failure returns"))
+		// (a') round-4 seed C17-7: no field is passed over before the descent. An iteration of the field loop that goes on to the
+		// next field without having handed the field's type to the recursion must be impossible for an embedded struct of an
+		// unexported type (its exported fields are promoted, encoded and rendered like any other) and, for any other field, must
+		// rest on a test that established the field unexported — never on a tag, a name or a kind.
+		indexForConds(recFn.Decl)
+		isHdr := func(e Event) bool {
+			return (e.Kind == EvRange && e.Depth == 0) || (e.Kind == EvBranch && e.Depth == 0 && forConds[e.Cond])
+		}
+		embAtom := func(e ast.Expr) (string, bool, bool) {
+			e = ast.Unparen(e)
+			if c, ok := e.(*ast.CallExpr); ok {
+				if sel, ok := ast.Unparen(c.Fun).(*ast.SelectorExpr); ok && sel.Sel.Name == "IsExported" {
+					return "exported", false, true
+				}
+			}
+			if sel, ok := e.(*ast.SelectorExpr); ok && sel.Sel.Name == "Anonymous" {
+				return "anonymous", false, true
+			}
+			if sel, ok := e.(*ast.SelectorExpr); ok && sel.Sel.Name == "PkgPath" {
+				return "", false, false
+			}
+			return "", false, false
+		}
+		badSkip := ""
+		var skipPos token.Pos = recFn.Decl.Pos()
+		iters := 0
+		// the field loop is the loop some iteration of which descends
+		fieldLoop := map[token.Pos]bool{}
+		for i := range all {
+			p := &all[i]
+			var open []token.Pos
+			for _, e := range p.Ev {
+				if isHdr(e) {
+					if e.Taken {
+						open = append(open, e.Pos)
+					}
+					continue
+				}
+				if IsCall(e, recKey) && len(open) > 0 {
+					fieldLoop[open[len(open)-1]] = true
+				}
+			}
+		}
+		for i := range all {
+			p := &all[i]
+			for j, h := range p.Ev {
+				if !isHdr(h) || !h.Taken || !fieldLoop[h.Pos] {
+					continue
+				}
+				end := -1
+				for x := j + 1; x < len(p.Ev); x++ {
+					if isHdr(p.Ev[x]) && p.Ev[x].Pos == h.Pos {
+						end = x
+						break
+					}
+				}
+				if end < 0 {
+					continue
+				}
+				iters++
+				descended, unexp := false, false
+				guard := ""
+				for x := j + 1; x < end; x++ {
+					e := p.Ev[x]
+					if IsCall(e, recKey) {
+						descended = true
+					}
+					if e.Kind == EvBranch && e.Cond != nil {
+						guard = ExprStr(e.Cond)
+						for _, l := range EventLiterals(fl.Info, e) {
+							if c, ok := ast.Unparen(l.X).(*ast.CallExpr); ok {
+								if sel, ok := ast.Unparen(c.Fun).(*ast.SelectorExpr); ok && sel.Sel.Name == "IsExported" && l.Val == "true" && !l.Eq {
+									unexp = true
+								}
+							}
+						}
+					}
+				}
+				if descended || badSkip != "" {
+					continue
+				}
+				if !unexp {
+					badSkip, skipPos = "a field is passed over without its type being examined (last test: "+guard+"): a secret-looking name in the type behind it is never reported, the plugin is registered and the value is stored and rendered unscrubbed", p.Ev[end-1].Pos
+				} else if !PathRefutedRange(fl, p, j+1, end, map[string]bool{"exported": false, "anonymous": true}, embAtom) {
+					badSkip, skipPos = "an embedded struct whose type is not exported is passed over with the unexported fields (last test: "+guard+"): its exported fields are promoted — encoded, stored and rendered — so a secret-looking one among them is never reported", p.Ev[end-1].Pos
+				}
+			}
+		}
+		if iters == 0 {
+			r.Unresolved(rule, "field loop iterations of "+ShortFn(recKey))
+		} else {
+			r.Check(rule, "findSecrets:no-field-passed-over", skipPos, badSkip == "", "%s", orOK(badSkip, "every field's type reaches the descent"))
+		}
 	}
 	// (b) Register checks both Request() and Response() and a failure rejects
 	reg := r.Fn(rule, "plugins/registry", "Register", "Register")
